@@ -35,7 +35,40 @@ extern uint8_t	vf_md5_at[VF_MD5_TBL];
 extern uint8_t	vf_md5_dig[VF_MD5_TBL][16];
 
 #ifndef VF_REPLAY
-#ifndef VF_MD5_UF
+#if defined(VF_MD5_GHOST_BODY)
+/* (A') the ghost-stream model of (A) as loop-free BODIES, for plain (non --dfcc) jobs: same
+ * summary in the context, same digest table, digest bytes arbitrary */
+uint8_t nondet_uint8_t(void);
+#define md5_init	vf_gb_md5_init
+#define md5_update	vf_gb_md5_update
+#define md5_final	vf_gb_md5_final
+static inline void
+vf_gb_md5_init(md5_ctx_p ctx) {
+	ctx->count = 0;
+	ctx->hash[0] = 0;
+}
+static inline void
+vf_gb_md5_update(md5_ctx_p ctx, const uint8_t *data, const size_t data_size) {
+	__CPROVER_precondition(data_size == 0 || __CPROVER_r_ok(data, data_size), "md5_update: data span inside its object");
+	if (vf_md5_k >= ctx->count && vf_md5_k - ctx->count < data_size)
+		ctx->hash[0] = data[vf_md5_k - ctx->count];
+	ctx->count += data_size;
+}
+static inline void
+vf_gb_md5_final(md5_ctx_p ctx, uint8_t *digest) {
+	uint8_t i;
+	__CPROVER_assert(vf_md5_n < VF_MD5_TBL, "ghost digest table large enough");
+	vf_md5_len[vf_md5_n] = ctx->count;
+	vf_md5_at[vf_md5_n] = (uint8_t)ctx->hash[0];
+	for (i = 0; i < 16; i ++) {
+		vf_md5_dig[vf_md5_n][i] = nondet_uint8_t();
+		digest[i] = vf_md5_dig[vf_md5_n][i];
+	}
+	vf_md5_n ++;
+	ctx->count = 0;
+	ctx->hash[0] = 0;
+}
+#elif !defined(VF_MD5_UF)
 #define VF_MD5_GHOST_ASSIGNS	vf_md5_n, __CPROVER_object_whole(vf_md5_len), \
 	__CPROVER_object_whole(vf_md5_at), __CPROVER_object_whole(vf_md5_dig)
 
@@ -86,6 +119,57 @@ __CPROVER_ensures(VF_MD5_DIG_IS(digest, __CPROVER_old(vf_md5_n)))
 	vf_md5_dig[i][15] == __CPROVER_old(vf_md5_dig[i][15])))
 __CPROVER_ensures(VF_MD5_ENTRY_KEPT(0) && VF_MD5_ENTRY_KEPT(1) && VF_MD5_ENTRY_KEPT(2) && VF_MD5_ENTRY_KEPT(3) &&
     VF_MD5_ENTRY_KEPT(4) && VF_MD5_ENTRY_KEPT(5) && VF_MD5_ENTRY_KEPT(6) && VF_MD5_ENTRY_KEPT(7) && VF_MD5_ENTRY_KEPT(8))
+;
+/* HMAC-MD5, same idea one level up: hmac_md5_init records the key, hmac_md5_update appends to the
+ * message stream kept in hctx->ctx, hmac_md5_final records (key, message length, message byte at
+ * vf_md5_k, digest) as entry vf_hm_n of the ghost HMAC table.  hmac_md5_* == RFC 2104 over
+ * md5_*: property C07. */
+#define VF_HM_TBL	2
+extern const uint8_t *vf_hm_key[VF_HM_TBL + 1];
+extern size_t	vf_hm_key_len[VF_HM_TBL + 1];
+extern size_t	vf_hm_n;
+extern size_t	vf_hm_len[VF_HM_TBL];
+extern uint8_t	vf_hm_at[VF_HM_TBL];
+extern uint8_t	vf_hm_dig[VF_HM_TBL][16];
+#define VF_HM_GHOST_ASSIGNS	vf_hm_n, __CPROVER_object_whole(vf_hm_key), __CPROVER_object_whole(vf_hm_key_len), \
+	__CPROVER_object_whole(vf_hm_len), __CPROVER_object_whole(vf_hm_at), __CPROVER_object_whole(vf_hm_dig)
+static inline void
+hmac_md5_init(const uint8_t *key, const size_t key_len, hmac_md5_ctx_p hctx)
+__CPROVER_requires(__CPROVER_w_ok(hctx, sizeof(hmac_md5_ctx_t)))
+__CPROVER_requires(key_len == 0 || __CPROVER_r_ok(key, key_len))
+__CPROVER_requires(vf_hm_n < VF_HM_TBL)
+__CPROVER_assigns(__CPROVER_object_upto(hctx, sizeof(hmac_md5_ctx_t)))
+__CPROVER_assigns(vf_hm_key[vf_hm_n], vf_hm_key_len[vf_hm_n])
+__CPROVER_ensures(hctx->ctx.count == 0 && vf_hm_key[vf_hm_n] == key && vf_hm_key_len[vf_hm_n] == key_len)
+;
+static inline void
+hmac_md5_update(hmac_md5_ctx_p hctx, const uint8_t *data, const size_t data_size)
+__CPROVER_requires(__CPROVER_w_ok(hctx, sizeof(hmac_md5_ctx_t)))
+__CPROVER_requires(data_size == 0 || __CPROVER_r_ok(data, data_size))
+__CPROVER_requires(data_size <= 65535 && hctx->ctx.count <= (1ull << 32))
+__CPROVER_assigns(__CPROVER_object_upto(hctx, sizeof(hmac_md5_ctx_t)))
+__CPROVER_ensures(hctx->ctx.count == __CPROVER_old(hctx->ctx.count) + data_size)
+__CPROVER_ensures(hctx->ctx.hash[0] ==
+    ((vf_md5_k >= __CPROVER_old(hctx->ctx.count) && vf_md5_k - __CPROVER_old(hctx->ctx.count) < data_size) ?
+	(uint32_t)data[vf_md5_k - __CPROVER_old(hctx->ctx.count)] : __CPROVER_old(hctx->ctx.hash[0])))
+;
+#define VF_HM_DIG_IS(d, i)	((d)[0] == vf_hm_dig[i][0] && (d)[1] == vf_hm_dig[i][1] && \
+	(d)[2] == vf_hm_dig[i][2] && (d)[3] == vf_hm_dig[i][3] && (d)[4] == vf_hm_dig[i][4] && \
+	(d)[5] == vf_hm_dig[i][5] && (d)[6] == vf_hm_dig[i][6] && (d)[7] == vf_hm_dig[i][7] && \
+	(d)[8] == vf_hm_dig[i][8] && (d)[9] == vf_hm_dig[i][9] && (d)[10] == vf_hm_dig[i][10] && \
+	(d)[11] == vf_hm_dig[i][11] && (d)[12] == vf_hm_dig[i][12] && (d)[13] == vf_hm_dig[i][13] && \
+	(d)[14] == vf_hm_dig[i][14] && (d)[15] == vf_hm_dig[i][15])
+static inline void
+hmac_md5_final(hmac_md5_ctx_p hctx, uint8_t *digest)
+__CPROVER_requires(__CPROVER_w_ok(hctx, sizeof(hmac_md5_ctx_t)))
+__CPROVER_requires(__CPROVER_w_ok(digest, 16))
+__CPROVER_requires(vf_hm_n < VF_HM_TBL)
+__CPROVER_assigns(__CPROVER_object_upto(hctx, sizeof(hmac_md5_ctx_t)), __CPROVER_object_upto(digest, 16))
+__CPROVER_assigns(vf_hm_n, __CPROVER_object_whole(vf_hm_len), __CPROVER_object_whole(vf_hm_at), __CPROVER_object_whole(vf_hm_dig))
+__CPROVER_ensures(vf_hm_n == __CPROVER_old(vf_hm_n) + 1)
+__CPROVER_ensures(vf_hm_len[__CPROVER_old(vf_hm_n)] == __CPROVER_old(hctx->ctx.count) &&
+    vf_hm_at[__CPROVER_old(vf_hm_n)] == (uint8_t)__CPROVER_old(hctx->ctx.hash[0]))
+__CPROVER_ensures(VF_HM_DIG_IS(digest, __CPROVER_old(vf_hm_n)))
 ;
 #else /* VF_MD5_UF: MD5 := an arbitrary fixed function of the byte stream */
 uint64_t __CPROVER_uninterpreted_vf_md5_step(uint64_t, uint64_t, uint8_t);
